@@ -33,6 +33,9 @@ type c07Case struct {
 	After     int      `json:"after"`      // valid messages published after Unsubscribe returned (nats)
 	Burst     int      `json:"burst"`      // additional valid messages published back to back (nats)
 	HoldFirst bool     `json:"hold_first"` // the first handler invocation blocks until everything was published
+	// Siblings (nats): the same factory also provides subscriptions to the three foreign
+	// topics; each subscription must get exactly the messages of its own topic
+	Siblings bool `json:"siblings,omitempty"`
 }
 
 var c07Kinds = []string{"valid", "valid", "valid", "valid", "short", "empty", "badversion", "badheadersize", "wrongop", "truncated", "foreign-op", "foreign-prefix", "foreign-scope"}
@@ -43,6 +46,7 @@ func genC07(t *rapid.T) c07Case {
 	c.Workers = rapid.IntRange(1, 4).Draw(t, "workers")
 	c.Queue = rapid.Bool().Draw(t, "queue")
 	c.Proto = rapid.SampledFrom([]string{"binary", "compact", "json"}).Draw(t, "proto")
+	c.Siblings = c.Transport == "nats" && rapid.IntRange(0, 2).Draw(t, "siblings") == 0
 	n := rapid.IntRange(1, 40).Draw(t, "n")
 	for i := 0; i < n; i++ {
 		m := c07Msg{Kind: rapid.SampledFrom(c07Kinds).Draw(t, "kind")}
@@ -96,6 +100,9 @@ func classifyC07(c c07Case) ev.Class {
 		labels = append(labels, "post-unsubscribe-publish")
 		nt = true
 	}
+	if c.Siblings {
+		labels = append(labels, "several-subscriptions-from-one-factory")
+	}
 	return ev.Class{NonTrivial: nt, Key: fmt.Sprintf("%+v", c), Labels: uniq(labels)}
 }
 
@@ -130,6 +137,8 @@ func execC07Inner(c c07Case) *ev.Failure {
 	}
 	var mu sync.Mutex
 	var got []c07Recv
+	sibGot := map[string][]string{}
+	sibWant := map[string][]string{}
 	syncC := make(chan struct{}, 256)
 	unsubscribed := false
 	var lateStart []string
@@ -186,7 +195,28 @@ func execC07Inner(c c07Case) *ev.Failure {
 		if c.Queue {
 			b = b.WithQueue(fmt.Sprintf("q%d", n))
 		}
-		sub = b.Build().GetTransport()
+		factory := b.Build()
+		sub = factory.GetTransport()
+		if c.Siblings {
+			for _, kind := range []string{"foreign-op", "foreign-prefix", "foreign-scope"} {
+				kind := kind
+				op := "Evt"
+				if kind == "foreign-op" {
+					op = "Evt2"
+				}
+				sib := factory.GetTransport()
+				if err := sib.Subscribe(foreign[kind], subscriberCallback(op, pf, func(ctx frugal.FContext, v string) error {
+					mu.Lock()
+					sibGot[kind] = append(sibGot[kind], v)
+					mu.Unlock()
+					return nil
+				})); err != nil {
+					return ev.Failf("harness:subscribe", "sibling %s: %v", kind, err)
+				}
+				defer sib.Unsubscribe()
+			}
+			sc.Flush()
+		}
 		rawPublish = func(t string, b []byte) error { return pc.Publish("frugal."+t, b) }
 		flush = func() { pc.Flush() }
 		_ = nats.DefaultURL
@@ -247,9 +277,11 @@ func execC07Inner(c c07Case) *ev.Failure {
 			err = pubValid(topic, "Evt", v, m.User, cid)
 			want = append(want, c07Recv{v, userKey(m.User), cid})
 		case "foreign-op":
-			err = pubValid(foreign[m.Kind], "Evt2", "foreign:"+m.V, m.User, cid)
+			err = pubValid(foreign[m.Kind], "Evt2", fmt.Sprintf("foreign:%d:%s", i, m.V), m.User, cid)
+			sibWant[m.Kind] = append(sibWant[m.Kind], fmt.Sprintf("foreign:%d:%s", i, m.V))
 		case "foreign-prefix", "foreign-scope":
-			err = pubValid(foreign[m.Kind], "Evt", "foreign:"+m.V, m.User, cid)
+			err = pubValid(foreign[m.Kind], "Evt", fmt.Sprintf("foreign:%d:%s", i, m.V), m.User, cid)
+			sibWant[m.Kind] = append(sibWant[m.Kind], fmt.Sprintf("foreign:%d:%s", i, m.V))
 		case "short":
 			err = rawPublish(topic, []byte{0, 0, 1}[:1+i%3])
 		case "empty":
@@ -291,7 +323,34 @@ func execC07Inner(c c07Case) *ev.Failure {
 		mu.Unlock()
 		return ev.Failf("message-lost", "%s: %d of %d valid same-topic messages were delivered within 5s (%d messages published in total)", c.Transport, g, len(want), len(c.Msgs))
 	}
+	if c.Siblings {
+		waitFor(3*time.Second, func() bool {
+			mu.Lock()
+			defer mu.Unlock()
+			for k, w := range sibWant {
+				if len(sibGot[k]) < len(w) {
+					return false
+				}
+			}
+			return true
+		})
+	}
 	time.Sleep(20 * time.Millisecond)
+	if c.Siblings {
+		mu.Lock()
+		for _, kind := range []string{"foreign-op", "foreign-prefix", "foreign-scope"} {
+			g, w := append([]string{}, sibGot[kind]...), append([]string{}, sibWant[kind]...)
+			if c.Workers != 1 {
+				sort.Strings(g)
+				sort.Strings(w)
+			}
+			if strings.Join(g, "\x00") != strings.Join(w, "\x00") {
+				mu.Unlock()
+				return ev.Failf("sibling-subscription", "a second subscription of the same factory (topic %s, %d workers) got %q, its topic was sent %q", foreign[kind], c.Workers, g, w)
+			}
+		}
+		mu.Unlock()
+	}
 	if c.Transport == "nats" {
 		if err := sub.Unsubscribe(); err != nil {
 			return ev.Failf("unsubscribe-error", "%v", err)
